@@ -10,7 +10,7 @@
    model's comparator (Model/SubOrder.v). *)
 From Coq Require Import List ZArith Bool Arith.
 Import ListNotations.
-From Stam Require Import Base.Sx Model.Offset Model.Store Model.StoreObs Model.Compress Model.SubOrder Spec.StoreSpec Run.StoreRun.
+From Stam Require Import Base.Sx Model.Offset Model.Store Model.StoreObs Model.Compress Model.SubOrder Model.Forward Spec.StoreSpec Run.StoreRun.
 
 Definition csel_of_sx (x : sx) : csel :=
   let n i := sx_nat (sx_nth i x) in
@@ -73,6 +73,22 @@ Definition obs_counts (s : store) (model : bool) : sx :=
                                               end) (seq 0 (length (d_data ds))))]
                       end) (seq 0 (length (sets s))))].
 
+(* the targets of every annotation by kind: model = the recursive iteration of the code,
+   spec = closure under "targets" without the iterator *)
+Definition sx_pairs (l : list (nat * nat)) : sx := L (map (fun p => L [of_nat (fst p); of_nat (snd p)]) l).
+Definition obs_forward (s : store) (model : bool) : sx :=
+  L (map (fun h => match get_ann s h with
+                   | None => dead
+                   | Some a =>
+                       L [of_nats (if model then fw_resources s a else sp_resources s a);
+                          of_nats (if model then fw_resources_meta s a else sp_resources_meta s a);
+                          of_nats (fw_datasets s a);
+                          sx_pairs (if model then fw_data_meta s a else sp_data_meta s a);
+                          sx_pairs (if model then fw_keys_meta s a else sp_keys_meta s a);
+                          of_nats (fw_targets_one s a);
+                          of_nats (if model then fw_targets_max s a else sp_targets_max s a)]
+                   end) (seq 0 (length (anns s)))).
+
 (* operation 14 = AnnotationStore::shrink_to_fit: performance only, the model does nothing *)
 Fixpoint run_ops (s : store) (ops : list sx) (forms : list sx) : list sx :=
   match ops with
@@ -81,7 +97,7 @@ Fixpoint run_ops (s : store) (ops : list sx) (forms : list sx) : list sx :=
       let '(s', ro) :=
         if Z.eqb (sx_Z (sx_nth 0 x)) 14 then (s, L [A 1])
         else let o := op_of_sx x in let '(s', r) := step s o in (s', sx_of_opout o r) in
-      (triple ro ro 0 :: obs_state s') ++ [triple (obs_counts s' true) (obs_counts s' false) 0] ++ form_cases s' (hd (L []) forms) ++ run_ops s' ops' (tl forms)
+      (triple ro ro 0 :: obs_state s') ++ [triple (obs_counts s' true) (obs_counts s' false) 0; triple (obs_forward s' true) (obs_forward s' false) 0] ++ form_cases s' (hd (L []) forms) ++ run_ops s' ops' (tl forms)
   end.
 
 Definition run_C01 (x : sx) : sx :=
